@@ -44,6 +44,12 @@ class ISplit(Entry):
         import esutil.algorithm as alg
 
         def f():
+            # the result must be a function of (num, nchunks) only: call, scribble over the returned array the way a
+            # caller shifting the ranges would, call again and report the SECOND answer (catches results that are
+            # shared between calls, e.g. a memoised mutable array)
+            first = alg.isplit(c["num"], c["nchunks"])
+            first["start"] += 1000
+            first["end"] -= 7
             s = alg.isplit(c["num"], c["nchunks"])
             return [(int(a), int(b)) for a, b in zip(s["start"], s["end"])]
         return core.guarded(f)
